@@ -623,17 +623,18 @@ class vacancyThermoKinetics(collections.namedtuple('vacancyThermoKinetics',
         return {'pre': self.pre, 'betaene': self.betaene, 'preT': self.preT, 'betaeneT': self.betaeneT}
 
     def __eq__(self, other):
-        # Note: could scale all prefactors by min(pre) and subtract all energies by min(ene)...?
+        # these are cache keys: equality is exact (and so consistent with __hash__); inputs that are merely
+        # close are different inputs, and must not share cached Green function values
         return isinstance(other, self.__class__) and \
-               np.allclose(self.pre, other.pre) and np.allclose(self.betaene, other.betaene) and \
-               np.allclose(self.preT, other.preT) and np.allclose(self.betaeneT, other.betaeneT)
+               np.array_equal(self.pre, other.pre) and np.array_equal(self.betaene, other.betaene) and \
+               np.array_equal(self.preT, other.preT) and np.array_equal(self.betaeneT, other.betaeneT)
 
     def __ne__(self, other):
-        return not __eq__(other)
+        return not self.__eq__(other)
 
     def __hash__(self):
-        return hash(self.pre.data.tobytes() + self.betaene.data.tobytes() +
-                    self.preT.data.tobytes() + self.betaeneT.data.tobytes())
+        # hash the values as floats (+0. maps -0. onto 0.) so that equal keys hash equally
+        return hash(b''.join((np.asarray(a, dtype=float) + 0.).tobytes() for a in self))
 
     @staticmethod
     def vacancyThermoKinetics_representer(dumper, data):
